@@ -14,12 +14,6 @@ theorem u8_succ_toNat {c : UInt8} (h : c < 255) : (c + 1).toNat = c.toNat + 1 :=
 theorem u8_le_255 (c : UInt8) : c.toNat ≤ 255 := by
   have := c.toNat_lt; omega
 
-/-- the upper-bound condition: no bound, or `k` below it. -/
-def belowUpper (u : Option Bytes) (k : Bytes) : Bool :=
-  match u with
-  | none => true
-  | some u => blt k u
-
 theorem prefixUpper_spec_bool (p k : Bytes) :
     (ble p k && belowUpper (prefixUpper p) k) = p.isPrefixOf k := by
   induction p generalizing k with
